@@ -175,6 +175,9 @@ func c10Triggers(kind string) []string {
 	return nil
 }
 
+// c10TagInhibited tags the quick tier's twin states that carry the inhibited-refresh mark.
+const c10TagInhibited = "inhibited-twin"
+
 const c10InjectedErr = "cannot perform the following tasks:\n- injected failure (error out)"
 
 type c10Runner struct {
@@ -344,6 +347,9 @@ func (cr *c10Runner) checkState(st vState, onlyOp int) {
 	}
 
 	withTriggers := r.Thorough() || st.Tag == "full" || st.Tag == "config-per-revision"
+	if st.A.RIT != "" {
+		r.Distinct("state_with_inhibited_mark", st.Key)
+	}
 	for oi, op := range c10OpsUnderTest(st.A, r.Thorough()) {
 		if oi != onlyOp {
 			continue
@@ -367,6 +373,9 @@ func (cr *c10Runner) checkState(st vState, onlyOp int) {
 		// the change itself writes configuration (as a hook would) right after link-snap / after the configure
 		// hook, and fails at every later splice point
 		for _, w := range []string{"link", "configure"} {
+			if st.Tag == c10TagInhibited {
+				break // twin of a state checked in full: splice points only
+			}
 			op.T, op.W = "", w
 			first := limit
 			for k := limit; k >= first && k > 0; k-- {
@@ -478,6 +487,37 @@ func (s *verifC10Suite) TestVerifC10(c *C) {
 				}
 			}
 		}
+		// quick tier: the full alphabet has no inhibited-refresh mark (it would double the breadth-first
+		// generation), so every installed state generated above except the 4-kept-revisions family gets a twin
+		// "same history, then an earlier refresh was held back because the snap was running" (RefreshInhibitedTime
+		// set). The twins are checked with every operation under test x every splice point (no written-config
+		// variants, no backend triggers: those are independent of the mark).
+		inhibitedTwins := 0
+		if r.Quick() && os.Getenv("VERIF_C10_DEPTH") == "" {
+			var fr []vState
+			depthOf := map[string]int{}
+			for _, s := range states {
+				if s.A.Installed && s.A.RIT == "" && s.Tag != "kept4-retain-lowered" {
+					fr = append(fr, s)
+					depthOf[eng.JSON(s.Path.Ops)] = s.Depth
+				}
+			}
+			tw, t2 := vBFSFrom("C10", c, fr, seen, func(vState) []vOp { return []vOp{{K: "inhibit"}} }, 0, 1, 16)
+			trans += t2
+			var twins []vState
+			for _, s := range tw {
+				if s.A.RIT == "" {
+					eng.HarnessError("inhibit left RefreshInhibitedTime unset: %s", eng.JSON(s.Path))
+				}
+				s.Depth = depthOf[eng.JSON(s.Path.Ops[:len(s.Path.Ops)-1])] + 1
+				s.Tag = c10TagInhibited
+				twins = append(twins, s)
+				inhibitedTwins++
+			}
+			// the twins are the cheapest family (splice points only): they are checked first, so that a time cap on
+			// a loaded machine cuts the tail of the large families, not a whole family
+			states = append(twins, states...)
+		}
 		os.MkdirAll(filepath.Dir(statesFile), 0755)
 		if err := os.WriteFile(statesFile, []byte(eng.JSON(states)), 0644); err != nil {
 			eng.HarnessError("cannot write %s: %v", statesFile, err)
@@ -488,7 +528,7 @@ func (s *verifC10Suite) TestVerifC10(c *C) {
 		for _, s := range states {
 			byDepth[fmt.Sprint(s.Depth)]++
 		}
-		r.Info("bounds", map[string]interface{}{"generation_plans": plans, "states_by_depth_below_root": byDepth, "generation_seconds": int(time.Since(t0).Seconds())})
+		r.Info("bounds", map[string]interface{}{"generation_plans": plans, "states_by_depth_below_root": byDepth, "generation_seconds": int(time.Since(t0).Seconds()), "inhibited_twin_states": inhibitedTwins})
 		fmt.Printf("C10: %d states %v in %v\n", len(states), byDepth, time.Since(t0))
 		if os.Getenv("VERIF_C10_LIST") != "" {
 			for _, s := range states {
